@@ -207,6 +207,14 @@ func streamEngine(t *testing.T, o *Out, p EngProfile) {
 			}
 			t.Fatalf("prepare: %v", err)
 		}
+		expandBefore := ""
+		if p.OtherNet {
+			// expand of the queried subject set in network A while network B is empty …
+			if err := env.fillOtherNetwork(nil); err != nil {
+				t.Fatalf("other network: %v", err)
+			}
+			expandBefore = env.expandInA(c)
+		}
 		if p.OtherNet {
 			// the other network holds tuples that would change many answers if they leaked:
 			// the same relations with every subject a member of everything
@@ -224,6 +232,10 @@ func streamEngine(t *testing.T, o *Out, p EngProfile) {
 				t.Fatalf("other network: %v", err)
 			}
 			o.Count("other-net-tuples")
+			// … and after network B was filled: the tree must be the same (C06: "expanded")
+			if after := env.expandInA(c); after != expandBefore {
+				extraCol = "\tx_expand_leak=" + strings.ReplaceAll(fmt.Sprintf("before %.300s after %.300s", expandBefore, after), "\t", " ")
+			}
 		}
 		switch {
 		case p.Faults:
@@ -270,6 +282,7 @@ func streamEngine(t *testing.T, o *Out, p EngProfile) {
 			}
 		default:
 			emit(c, "g", true)
+			extraCol = ""
 			// more queries on the same state
 			for j := 0; j < 3 && !env.hung; j++ {
 				qc := *c
